@@ -92,7 +92,7 @@ def run_sequence(cls_name, ops, ident, res, probes=()):
             oindex, oethertype = IDS[(IDS.index(ident) + state["observed"])
                                      % len(IDS)]
             sterile_first = state["observed"] % 2 == 0
-        what = "" if when is None else " (observed before the last append)"
+        what = "" if when is None else " (assembled between operations)"
         if pk.size != size:
             bad(size, pk.size, "size attribute wrong" + what)
         if not accepted:
@@ -240,12 +240,12 @@ def lengths_depth1(ctx):
     return list(range(1474))
 
 
-def seq_kinds(ctx):
+def seq_kinds(quick):
     kinds = []
     cmds = [(ecparse.APRD, (-3, 0x10), "plain"),
             (ecparse.FPWR, (1000, 0x800), "writer"),
             (ecparse.LRW, (0x00010800,), "plain")]
-    lens = [0, 1, 31, 700, 1400, ("fit", 0), ("fit", 1)] if ctx.quick else \
+    lens = [0, 1, 31, 700, 1400, ("fit", 0), ("fit", 1)] if quick else \
         [0, 1, 2, 31, 700, 1400, ("fit", 0), ("fit", 1), ("fit", -1)]
     for (cmd, addr, method), n, (wkc, idx) in itertools.product(
             cmds, lens, [(0, 0), (3, 255)]):
@@ -325,9 +325,10 @@ def work(item, res):
             both(seq, ident, res)
             both(seq, ident, res, (0,))
     elif kind == "seq":
-        prefix, depth, kinds, probesets = payload_
-        for tail in itertools.product(range(len(kinds)),
-                                      repeat=depth - len(prefix)):
+        prefix, depth, kinds, probesets, last = payload_
+        free = depth - len(prefix)
+        for tail in itertools.product(*([range(len(kinds))] * (free - 1)
+                                        + [last])):
             seq = [kinds[i] for i in prefix + tail]
             ident = IDS[sum(prefix + tail) % len(IDS)]
             for probes in probesets:
@@ -355,19 +356,20 @@ def work(item, res):
         both(seq, ident, res, probes)
 
 
-def run(ctx):
+def build_items(ctx):
     lens1 = lengths_depth1(ctx)
     items = []
     for cmd in range(15):
         for j, n in enumerate(lens1):
-            w = (cmd * 5 + j * WINDOW + ctx.seed) % len(ADDRS)
-            addrs = tuple((ADDRS + ADDRS)[w:w + WINDOW])
+            w2 = (cmd * 7 + j * 5 + ctx.seed) % len(ADDRS2)
+            w1 = (cmd + j * 2 + ctx.seed) % len(LOGICALS)
+            addrs = tuple((ADDRS2 + ADDRS2)[w2:w2 + WINDOW - 2]
+                          + (LOGICALS + LOGICALS)[w1:w1 + 2])
             items.append(("d1", (cmd, n, addrs)))
     items += [("addr1", (a,)) for a in ADDRS]
     items += [("addr2", (a, i)) for i, a in enumerate(ADDRS)]
-    kinds = seq_kinds(ctx)
-    qkinds = kinds if ctx.quick else seq_kinds(core.Ctx(ctx.prop, "quick",
-                                                        ctx.seed, 1))
+    kinds = seq_kinds(ctx.quick)
+    qkinds = seq_kinds(True)
     pkinds = probe_kinds()
     maxdepth = 3 if ctx.quick else 4
     NONE = ((),)
@@ -380,19 +382,27 @@ def run(ctx):
             sets = NONE + ((0, 1),)
         else:
             sets = NONE
+        last = tuple(range(len(kinds)))
+        if depth == 4:
+            # thinned: the fourth datagram does not take the length 2 (it
+            # does in the first three places, and at every place up to
+            # depth 3); this pays for the probe sets at depth 3 and 4
+            last = tuple(i for i, k in enumerate(kinds) if k[3] != 2)
         for prefix in itertools.product(range(len(kinds)), repeat=plen):
-            items.append(("seq", (prefix, depth, kinds, sets)))
+            items.append(("seq", (prefix, depth, kinds, sets, last)))
     # every probe set at depth 3: reduced alphabet (quick), the quick
     # alphabet (thorough)
     rest = tuple(s for s in subsets(3) if s != (0, 1))
     for ks in ((pkinds,) if ctx.quick else (pkinds, qkinds)):
         for prefix in itertools.product(range(len(ks)), repeat=2):
-            items.append(("seq", (prefix, 3, ks, rest)))
+            items.append(("seq", (prefix, 3, ks, rest,
+                                  tuple(range(len(ks))))))
     if not ctx.quick:
         # depth 4 observed after every prefix, reduced alphabet
         for prefix in itertools.product(range(len(pkinds)), repeat=2):
             items.append(("seq", (prefix, 4, pkinds,
-                                  ((0, 1, 2), (1, 2), (0, 2), (2, 2)))))
+                                  ((0, 1, 2), (1, 2), (0, 2), (2, 2)),
+                                  tuple(range(len(pkinds))))))
     items += [("pad", (n1,)) for n1 in range(0, 21)]
     lo, hi = (14, 17) if ctx.quick else (13, 17)
     for n in range(lo, hi + 1):
@@ -411,6 +421,16 @@ def run(ctx):
         if not ctx.quick and n in (15, 16):
             items.extend(("long", (p, (13, 14)))
                          for p in itertools.product((0, 1), repeat=n))
+    return items
+
+
+def run(ctx):
+    items = build_items(ctx)
+    lens1 = lengths_depth1(ctx)
+    kinds = seq_kinds(ctx.quick)
+    pkinds = probe_kinds()
+    maxdepth = 3 if ctx.quick else 4
+    lo, hi = (14, 17) if ctx.quick else (13, 17)
     res = core.pmap(ctx, work, items, chunk=8)
     res.cov["alphabet"] = dict(
         depth1_lengths=len(lens1), addresses=len(ADDRS),
